@@ -1,9 +1,9 @@
 package set_time
 
 import (
-	"time"
 	"github.com/ozontech/file.d/pipeline"
 	insaneJSON "github.com/ozontech/insane-json"
+	"time"
 
 	vf "github.com/ozontech/file.d/zzverif"
 )
